@@ -102,25 +102,25 @@ func Spec() *run.Spec {
 		Phases: []run.Phase{
 			{Name: "write-read", Cases: func(t string) int {
 				if t == "thorough" {
-					return 400000
+					return 150000
 				}
 				return 12000
 			}, Run: writeRead, Batch: 200, CPUBudgetS: 20},
 			{Name: "load-save", Cases: func(t string) int {
 				if t == "thorough" {
-					return 400000
+					return 150000
 				}
 				return 12000
 			}, Run: loadSave, Batch: 200, CPUBudgetS: 20},
 			{Name: "files", Cases: func(t string) int {
 				if t == "thorough" {
-					return 20000
+					return 8000
 				}
 				return 800
 			}, Run: files, Batch: 100, CPUBudgetS: 20},
 			{Name: "file-histories", Cases: func(t string) int {
 				if t == "thorough" {
-					return 20000
+					return 8000
 				}
 				return 1000
 			}, Run: fileHistories, Batch: 100, CPUBudgetS: 20},
@@ -132,7 +132,7 @@ func Spec() *run.Spec {
 			}, Run: large, Batch: 1, CPUBudgetS: 180},
 			{Name: "fault-sequences", Cases: func(t string) int {
 				if t == "thorough" {
-					return 40000
+					return 15000
 				}
 				return 1500
 			}, Run: faultSequences, Batch: 100, CPUBudgetS: 20},
